@@ -76,6 +76,11 @@ func (store *Store) pathForKey(key string) string {
 	shards := make([]string, 1, 4) // future work: would be nice if we could reuse this rather than fresh allocating.
 	shards[0] = store.basepath     // not part of the path shard, but will be a param to Join, so, practical to put here.
 	//shards[1] = storageDir       // not part of the path shard, but will be a param to Join, so, practical to put here.
+	// Keys are arbitrary binary strings: escape before anything reaches the filesystem.
+	// (The sharding function is applied to the escaped form.)
+	if store.escapingFunc != nil {
+		key = store.escapingFunc(key)
+	}
 	store.shardingFunc(key, &shards)
 	return filepath.Join(shards...)
 }
